@@ -1,5 +1,5 @@
 """C01 — bounded pipeline contracts (schema catalogue)."""
-from vlib import lgen, schemas, monrun
+from vlib import lgen, schemas, monrun, run as R
 
 META = {
   'level': 'other',
@@ -27,6 +27,18 @@ def rewritten_schemas(tier, seed):
     rs = variants.rewrites(s['text'], s.get('tables') or {})
     if tier == 'quick' and len(rs) > 2:
       rs = rnd.sample(rs, 2)
+    # the same program with type checking switched on (a different compilation path: type inference,
+    # CheckOrderByClause); programs that type checking rejects with a diagnostic are left out
+    if lgen.E in s['text'] and (tier != 'quick' or rnd.random() < 0.3):
+      typed = s['text'].replace(lgen.E, lgen.E_TYPED)
+      try:
+        prog = R.compile_program(typed)
+        for p_ in s['spec']:
+          R.statements_for(prog, p_)
+        rs.append(('type-checked', typed))
+      except Exception as e:
+        if type(e).__name__ not in ('RuleCompileException', 'TypeErrorCaughtException', 'ParsingException', 'FunctorError'):
+          rs.append(('type-checked', typed))     # an internal error: let the schema run report it
     for kind, text in rs:
       d = dict(s)
       d['name'] = '%s~%s' % (s['name'], kind)
@@ -44,7 +56,7 @@ def run(tier, seed):
   r['rule'] = ('core / aggregation / sugar schemas rewritten by meaning-preserving transformations (every extensional '
                'table read through one more injectible predicate; integer literals of bodies replaced by calls of '
                'constant functions; the first two conjuncts of each body in parentheses; `~(~T(args))` appended after '
-               'a positive literal T(args)): the original spec comprehension must hold (%d rewritten programs)' % len(rw))
+               'a positive literal T(args); type checking switched on): the original spec comprehension must hold (%d rewritten programs)' % len(rw))
   return [schemas.run_schemas(lgen.by_tag('C01'), tier, seed, 'C01-schemas'), r,
           monrun.run_monitors('C01', tier, seed)]
 
